@@ -148,6 +148,10 @@ func ScorchConfig(l Layout) map[string]interface{} {
 	case 3:
 		kvc["scorchPersisterOptions"] = map[string]interface{}{"PersisterNapTimeMSec": 1, "PersisterNapUnderNumFiles": 0}
 		kvc["scorchMergePlanOptions"] = map[string]interface{}{"MaxSegmentsPerTier": 1, "SegmentsPerMergeTask": 2, "FloorSegmentSize": 1}
+	case 5:
+		// a napping persister (as recommended for unsafe batches): roots pile up between rounds
+		kvc["scorchPersisterOptions"] = map[string]interface{}{"PersisterNapTimeMSec": 25, "PersisterNapUnderNumFiles": 1000}
+		kvc["scorchMergePlanOptions"] = map[string]interface{}{"MaxSegmentsPerTier": 1, "SegmentsPerMergeTask": 2, "FloorSegmentSize": 1}
 	case 4:
 		kvc["scorchPersisterOptions"] = map[string]interface{}{"NumPersisterWorkers": 4, "MaxSizeInMemoryMergePerWorker": 1, "PersisterNapTimeMSec": 5, "PersisterNapUnderNumFiles": 1000}
 	}
